@@ -16,8 +16,7 @@ def LastNaN (S : VState α) : Prop := ∃ p, S[S.length - 1]? = some (p, none)
 /-- ARGMIN never designates the last entry of a column of more than one entry whose last entry is NaN -/
 theorem argmin_not_last (big : α) (S : VState α) (hl : 1 < S.length) (h : LastNaN S) :
     argmin big (S.map (·.2)) + 1 < S.length := by
-  unfold argmin
-  rcases argminLoop_cases (S.map (·.2)) 0 big 0 with e | ⟨j, v, e1, e2⟩
+  rcases argmin_cases big (S.map (·.2)) with e | ⟨j, v, e1, e2⟩
   · rw [e]; omega
   · rw [e1]
     rw [List.getElem?_map] at e2
